@@ -39,11 +39,22 @@ def canon(g):
 @st.composite
 def assemble_trace(draw):
     ploidy = draw(st.integers(1, 6))
-    n_base = draw(st.integers(1, 5))
+    long_locus = draw(st.integers(0, 7)) == 0
+    n_base = draw(st.integers(60, 140)) if long_locus else draw(st.integers(1, 5))
     n_chain = draw(st.integers(1, 4))
-    n_step = draw(st.integers(1, 40))
+    n_step = draw(st.integers(1, 12 if long_locus else 40))
     n_hap_pool = draw(st.integers(1, 5))
-    haps = [[draw(st.integers(0, 3)) for _ in range(n_base)] for _ in range(n_hap_pool)]
+    if long_locus:
+        # haplotypes that differ only at a few sites anywhere along a long locus (first sites included)
+        cols = [0, 1, 2, n_base // 2, n_base - 1]
+        haps = []
+        for _ in range(n_hap_pool):
+            h = [0] * n_base
+            for c in cols:
+                h[c] = draw(st.integers(0, 1))
+            haps.append(h)
+    else:
+        haps = [[draw(st.integers(0, 3)) for _ in range(n_base)] for _ in range(n_hap_pool)]
     n_pool = draw(st.integers(1, 5))
     pool = [[draw(st.sampled_from(haps)) for _ in range(ploidy)] for _ in range(n_pool)]
     # chains may favour different genotypes (so incongruence can happen)
